@@ -24,7 +24,7 @@ type verifC25Entry struct {
 func verifC25World() (*Storage, []verifC25Entry) {
 	st, err := NewStorage(leveldbStorage.NewMemStorage(), nil)
 	verifrt.Assert(err == nil, "C25.harness.storage-opens")
-	n := verifrt.NondetChoice("entries", verifrt.Bound("entries", 3, 4)+1)
+	n := verifrt.NondetChoice("entries", verifrt.Bound("entries", 3, 3)+1)
 	es := make([]verifC25Entry, n)
 	for i := range es {
 		l := 1 + verifrt.NondetChoice("keylen", verifrt.Bound("keylen", 3, 4))
